@@ -90,14 +90,21 @@ func (t *Transaction) Transact(operations ...ovsdb.Operation) ([]*ovsdb.Operatio
 		case ovsdb.OperationWait:
 			r = t.Wait(op.Table, op.Timeout, op.Where, op.Columns, op.Until, op.Rows)
 		case ovsdb.OperationCommit:
-			durable := op.Durable
-			r = t.Commit(*durable)
+			r = t.Commit(op.Durable != nil && *op.Durable)
 		case ovsdb.OperationAbort:
 			r = t.Abort()
 		case ovsdb.OperationComment:
-			r = t.Comment(*op.Comment)
+			comment := ""
+			if op.Comment != nil {
+				comment = *op.Comment
+			}
+			r = t.Comment(comment)
 		case ovsdb.OperationAssert:
-			r = t.Assert(*op.Lock)
+			lock := ""
+			if op.Lock != nil {
+				lock = *op.Lock
+			}
+			r = t.Assert(lock)
 		default:
 			r = ovsdb.ResultFromError(&ovsdb.NotSupported{})
 		}
